@@ -306,6 +306,16 @@ func algInfo(oid asn1.ObjectIdentifier) (*CaAlgorithmInfo, error) {
 	return &out, nil
 }
 
+// keyReference is the value of the key reference data object (tag 84) for a key identifier: the content octets
+// of the INTEGER, i.e. at least one octet (big.Int.Bytes() is empty for 0, which would name no key)
+func keyReference(keyId *big.Int) []byte {
+	if ref := keyId.Bytes(); len(ref) > 0 {
+		return ref
+	}
+
+	return []byte{0x00}
+}
+
 func (chipAuth *ChipAuth) doMseSetKAT(curve *elliptic.Curve, termKeypair cryptoutils.EcKeypair, caInfo *document.ChipAuthenticationInfo) error {
 	// MSE:Set KAT
 	//
@@ -323,7 +333,7 @@ func (chipAuth *ChipAuth) doMseSetKAT(curve *elliptic.Curve, termKeypair cryptou
 
 	// specify key-id (if required)
 	if caInfo.KeyId != nil {
-		nodes.AddNode(tlv.NewTlvSimpleNode(0x84, caInfo.KeyId.Bytes()))
+		nodes.AddNode(tlv.NewTlvSimpleNode(0x84, keyReference(caInfo.KeyId)))
 	}
 
 	// MSE:Set KAT (0x41A6: Set Key Agreement Template for computation)
@@ -354,7 +364,7 @@ func (chipAuth *ChipAuth) doMseSetAT(caInfo *document.ChipAuthenticationInfo) er
 	nodes.AddNode(tlv.NewTlvSimpleNode(0x80, oid.OidBytes(caInfo.Protocol)))
 	// specify key-id (if required)
 	if caInfo.KeyId != nil {
-		nodes.AddNode(tlv.NewTlvSimpleNode(0x84, caInfo.KeyId.Bytes()))
+		nodes.AddNode(tlv.NewTlvSimpleNode(0x84, keyReference(caInfo.KeyId)))
 	}
 
 	// MSE:Set AT (0x41A4: Chip Authentication)
